@@ -247,6 +247,94 @@ theorem parse_range_uint (v : Int) : Ty.inRange .uint v = true ↔ 0 ≤ v ∧ v
 
 end Agd.Config
 #print axioms Agd.Tie.TrC20.translation_complete
+#print axioms Agd.Tie.TrC20.ite_some_some
+#print axioms Agd.Tie.TrC20.posErr_eq_none
+#print axioms Agd.Tie.TrC20.firstErr_cons_eq_none
 #print axioms Agd.Tie.TrC20.connLimit_total
 #print axioms Agd.Tie.TrC20.connLimit_accepts
 #print axioms Agd.Tie.TrC20.connLimit_tr
+#print axioms Agd.Tie.TrC20.allow_total
+#print axioms Agd.Tie.TrC20.allow_accepts
+#print axioms Agd.Tie.TrC20.opts_total
+#print axioms Agd.Tie.TrC20.opts_accepts
+#print axioms Agd.Tie.TrC20.keyLen_total
+#print axioms Agd.Tie.TrC20.keyLen_accepts
+#print axioms Agd.Tie.TrC20.tcp_total
+#print axioms Agd.Tie.TrC20.tcp_accepts
+#print axioms Agd.Tie.TrC20.quic_total
+#print axioms Agd.Tie.TrC20.quic_accepts
+#print axioms Agd.Tie.TrC20.rateLimit_total
+#print axioms Agd.Tie.TrC20.rateLimit_accepts
+#print axioms Agd.Tie.TrC20.genOpts_accepts
+#print axioms Agd.Tie.TrC20.rateLimit_tr
+#print axioms Agd.Tie.TrC20.ttl_total
+#print axioms Agd.Tie.TrC20.ttl_accepts
+#print axioms Agd.Tie.TrC20.cache_total
+#print axioms Agd.Tie.TrC20.cache_accepts
+#print axioms Agd.Tie.TrC20.cache_tr
+#print axioms Agd.Tie.TrC20.dns_total
+#print axioms Agd.Tie.TrC20.dns_accepts
+#print axioms Agd.Tie.TrC20.dns_tr
+#print axioms Agd.Tie.TrC20.dnsdb_total
+#print axioms Agd.Tie.TrC20.dnsdb_accepts
+#print axioms Agd.Tie.TrC20.dnsdb_tr
+#print axioms Agd.Tie.TrC20.geo_total
+#print axioms Agd.Tie.TrC20.geo_accepts
+#print axioms Agd.Tie.TrC20.geo_tr
+#print axioms Agd.Tie.TrC20.queryLog_total
+#print axioms Agd.Tie.TrC20.queryLog_accepts
+#print axioms Agd.Tie.TrC20.queryLog_tr
+#print axioms Agd.Tie.TrC20.access_tr
+#print axioms Agd.Tie.TrC20.backend_total
+#print axioms Agd.Tie.TrC20.backend_accepts
+#print axioms Agd.Tie.TrC20.backend_tr
+#print axioms Agd.Tie.TrC20.network_total
+#print axioms Agd.Tie.TrC20.network_accepts
+#print axioms Agd.Tie.TrC20.network_tr
+#print axioms Agd.Tie.TrC20.healthcheck_total
+#print axioms Agd.Tie.TrC20.healthcheck_accepts
+#print axioms Agd.Tie.TrC20.healthcheck_tr
+#print axioms Agd.Tie.TrC20.healthcheck_tr_iff
+#print axioms Agd.Tie.TrC20.upstreamServer_accepts
+#print axioms Agd.Tie.TrC20.upstreamServer_total
+#print axioms Agd.Tie.TrC20.upstreamServer_tr
+#print axioms Agd.Tie.TrC20.rlc_total
+#print axioms Agd.Tie.TrC20.rlc_accepts
+#print axioms Agd.Tie.TrC20.filters_total
+#print axioms Agd.Tie.TrC20.filters_accepts
+#print axioms Agd.Tie.TrC20.filters_tr
+#print axioms Agd.Tie.TrC20.safeBrowsing_total
+#print axioms Agd.Tie.TrC20.safeBrowsing_accepts
+#print axioms Agd.Tie.TrC20.safeBrowsing_tr
+#print axioms Agd.Tie.TrC20.kv_total
+#print axioms Agd.Tie.TrC20.kv_accepts
+#print axioms Agd.Tie.TrC20.kv_tr
+#print axioms Agd.Tie.TrC20.ports_nil
+#print axioms Agd.Tie.TrC20.ports_total
+#print axioms Agd.Tie.TrC20.ports_accepts
+#print axioms Agd.Tie.TrC20.ports_tr
+#print axioms Agd.Tie.TrC20.ifaceListener_total
+#print axioms Agd.Tie.TrC20.ifaceListener_accepts
+#print axioms Agd.Tie.TrC20.ifaceListener_tr
+#print axioms Agd.Tie.TrC20.web_accepts
+#print axioms Agd.Tie.TrC20.web_total
+#print axioms Agd.Tie.TrC20.web_timeout_first
+#print axioms Agd.Tie.TrC20.web_tr
+#print axioms Agd.Tie.TrC20.limiter_new
+#print axioms Agd.Tie.TrC20.limiter_new_nil
+#print axioms Agd.Tie.TrC20.connLimit_toInternal_panics_iff
+#print axioms Agd.Tie.TrC20.connLimit_toInternal_ok
+#print axioms Agd.Tie.TrC20.connLimit_toInternal_build
+#print axioms Agd.Tie.TrC20.cache_toInternal_panics_iff
+#print axioms Agd.Tie.TrC20.cache_toInternal_eq
+#print axioms Agd.Tie.TrC20.cache_toInternal_ok
+#print axioms Agd.Tie.TrC20.cache_toInternal_type
+#print axioms Agd.Tie.TrC20.rateLimit_toInternal_eq
+#print axioms Agd.Tie.TrC20.newBackoff_eq
+#print axioms Agd.Tie.TrC20.rateLimit_toInternal_ok
+#print axioms Agd.Tie.TrC20.toInternal_nil
+#print axioms Agd.Tie.TrC20.network_toInternal_ok
+#print axioms Agd.Tie.TrC20.subnetKey_prefix_len
+#print axioms Agd.Tie.TrC20.subnetKey_panics_iff
+#print axioms Agd.Tie.TrC20.missing_reported
+#print axioms Agd.Tie.TrC20.rateLimit_names_ipv4
